@@ -13,7 +13,7 @@ from ..gen import rbytes
 from ..ser import compact_size
 
 RULE = ("completeness: consistent chains whose blocks have every tx count 1..64 (then random counts up to 600, powers of two and odd "
-        "counts at several tree levels), legacy+segwit, x start offsets (first processed block linked against the retained record "
+        "counts at several tree levels), legacy+segwit, transactions with counts/lengths at the CompactSize boundaries, x start offsets (first processed block linked against the retained record "
         "start-1) x 8 coins (real genesis block at height 0 for bitcoin/testnet3/litecoin/dogecoin) must pass --verify with all outputs "
         "equal to the model. soundness (fault enumeration on the stored bytes): every single-bit flip of the merkle-root field and of the "
         "prev-hash field of chosen blocks, sampled (quick) / all (thorough) single-bit flips of the txid-covered transaction bytes, a "
@@ -33,6 +33,17 @@ def build(spec):
         for _ in range(max(0, n_tx - 1)):
             sw = rng.random() < 0.3
             txs.append(cb.spend_tx(1, outs=[cb.out(rng.choice(["p2pkh", "p2sh", "nonstd"]))], segwit=sw))
+        if spec.get("rich"):
+            # consistent chains must also be accepted when the txid-covered serialisation has counts / lengths on
+            # either side of the CompactSize width boundaries, big scripts and segwit witnesses
+            for val in (0xFC, 0xFD, 0xFE, 0xFFFF, 0x10000):
+                t = cb.spend_tx(2, outs=[cb.out("p2pkh"), TxOut(3, rbytes(rng, val))], segwit=rng.random() < 0.5)
+                t.ins[0].script_sig = rbytes(rng, val)
+                t.invalidate()
+                txs.append(t)
+            for cnt in (0xFC, 0xFD, 0xFE):
+                txs.append(Tx(1, [TxIn(rbytes(rng, 32), i, b"", 0xFFFFFFFF) for i in range(cnt)], [cb.out("p2pkh")], 0))
+                txs.append(cb.spend_tx(1, outs=[TxOut(i, b"\x51") for i in range(cnt)]))
         cb.add_block(txs=txs)
     return cb.chain(), g
 
@@ -241,6 +252,9 @@ def plan(chk):
         n += 1
         big = [rng.choice([65, 100, 127, 128, 129, 255, 256, 257, 511, 512, 513, 600, rng.randint(65, 600)]) for _ in range(6 if chk.thorough else 3)]
         specs.append(dict(case="accept", coin=coin, seed=chk.seed, chain="big-%d" % ci, n=n, txcounts=big))
+    for ci, coin in enumerate(COIN_NAMES if chk.thorough else COIN_NAMES[::3]):
+        n += 1
+        specs.append(dict(case="accept", coin=coin, seed=chk.seed, chain="rich-%d" % ci, n=n, txcounts=[2, 1, 3], rich=True))
     for i in range(200 if chk.thorough else 10):
         n += 1
         specs.append(dict(case="accept", coin=rng.choice(COIN_NAMES), seed=chk.seed, chain="rnd-%d" % i, n=n,
